@@ -26,7 +26,7 @@ def swarmCountsNever (mreg ms : Int) : Nat × Nat :=
 
 /-- a provider that asks for one tool on every round -/
 def foreverTools : ToolAdv Unit Unit Unit Unit :=
-  ⟨fun _ _ => ((), .ok ((), [()])), fun _ _ => ((), .ok ()), fun _ _ => ((), .ok ())⟩
+  ⟨fun _ _ => ((), .ok ((), [()])), fun _ calls => !calls.isEmpty, fun _ _ => ((), .ok ()), fun _ _ => ((), .ok ())⟩
 
 /-- (tool rounds, plain completions) the model makes against `foreverTools` -/
 def toolCountsForever (n : Int) : Nat × Nat :=
@@ -45,7 +45,7 @@ def hintsSeen : List (List Nat) × (Nat × Nat × Nat) :=
 
 /-- a provider that asks for one tool on every round; the `n`-th tool execution returns `n` -/
 def countingTools : ToolAdv Nat Unit Unit Nat :=
-  ⟨fun s _ => (s, .ok ((), [()])), fun s _ => (s, .ok ()), fun s _ => (s + 1, .ok s)⟩
+  ⟨fun s _ => (s, .ok ((), [()])), fun _ calls => !calls.isEmpty, fun s _ => (s, .ok ()), fun s _ => (s + 1, .ok s)⟩
 
 /-- what each provider call of the model's tool loop (budget 3) was shown: the tool results its prompt carries -/
 def promptsSeen : List (List Nat) :=
